@@ -122,9 +122,10 @@ def _l1_headers(si: int, nm: int, rejects: bool, hdr: int, mrp: int, ok: bool) -
     return _run(name, nm, rejects, (None if mrp == 0 else mrp), hdr, specs) is None
 
 
-def _l1_per_cell(stale: bool, b0: bool, i0: bool, b1: bool, i1: bool, maxh: int) -> bool:
+def _l1_per_cell(stale: bool, b0: bool, i0: bool, b1: bool, i1: bool, maxh: int, prune: int) -> bool:
     """
     pre: 1 <= maxh <= 3
+    pre: 0 <= prune <= 2
     post: _
     """
     # one file per cell (--scsepf): real FastqHandle(single_cell=True) + real HandleLimiter over the in-memory file system
@@ -158,6 +159,10 @@ def _l1_per_cell(stale: bool, b0: bool, i0: bool, b1: bool, i1: bool, maxh: int)
             return pairs[self.i - 1]
     DSL.fastqIterator = types.SimpleNamespace(FastqIterator=MemIter, FastqRecord=FI.FastqRecord)
     target = FH.FastqHandle('demux', pairedEnd=True, single_cell=True, maxHandles=maxh)
+    if prune > 0:
+        # the limiter closes the least recently written handles every `prune` writes (default 10000): a cell file that was
+        # closed in between must be re-opened for appending
+        target.handles.pruneEvery = prune
     with contextlib.redirect_stdout(io.StringIO()):
         processed, yields = LOADER.demultiplex(['R1.fq', 'R2.fq'], strategies=[strat], library='LIB', targetFile=target, rejectHandle=None)
     target.close()
